@@ -759,6 +759,37 @@ func checkC11(c *Ctx) {
 				}
 			}
 		}
+		// atomicity: what is removed is decided inside the write-locked section that removes it.  The
+		// pool snapshot (GetBackends) the removed elements come from — looked for in RemoveBackend and in
+		// the balancer helpers it calls — must be taken with lb.mutex held in write mode; a list of
+		// matches collected under the read lock and removed later misses a backend of that name added
+		// in between, although a listing in between showed it ("once remove returns no backend of
+		// that name is listed")
+		li := p.Locks()
+		var snapshots []ssa.CallInstruction
+		seenH := map[*ssa.Function]bool{}
+		var collect func(f *ssa.Function, d int)
+		collect = func(f *ssa.Function, d int) {
+			if f == nil || seenH[f] || d > 2 || f.Blocks == nil {
+				return
+			}
+			seenH[f] = true
+			for _, ci := range callsIn(f) {
+				if strings.HasSuffix(CalleeName(ci), "Strategy).GetBackends") {
+					snapshots = append(snapshots, ci)
+				}
+				if g := StaticFn(ci); g != nil && g.Signature.Recv() != nil && QualType(namedOf(g.Signature.Recv().Type())) == "loadbalancer.LoadBalancer" {
+					collect(g, d+1)
+				}
+			}
+		}
+		collect(rb, 0)
+		for _, snap := range snapshots {
+			fl := li.Fns[snap.Parent()]
+			if fl == nil || fl.Must[snap].HoldsClass("loadbalancer.LoadBalancer.mutex") != 'W' {
+				c.Fail("remove-removes-name", construct+"/atomic", p.InstrPos(snap), "the backends to remove are looked up without lb.mutex held in write mode (in "+p.FuncKey(snap.Parent())+") and removed in a later critical section: a backend of that name added in between survives the removal although a listing in between already showed it — no sequential order of the three operations explains the history")
+			}
+		}
 		// alternative: AddBackend rejects duplicates
 		dupRejected := false
 		if ab := p.Fn("internal/loadbalancer", "LoadBalancer", "AddBackend"); ab != nil {
